@@ -4,7 +4,8 @@ From SP Require Import Model.Num Model.Arrow Model.Bounds Model.PointKernels Mod
                        Spec.BoundsSpec Spec.IntersectSpec Spec.Plane
                        Proofs.IntersectBase Proofs.IntersectPoints Proofs.IntersectSeg
                        Proofs.IntersectPlane Proofs.IntersectLine Proofs.IntersectWinding
-                       Proofs.IntersectPolygon.
+                       Proofs.IntersectPolygon Proofs.IntersectPolygonC Proofs.IntersectWnConst
+                       Proofs.IntersectPolyArrays.
 Import ListNotations.
 Local Open Scope Z_scope.
 
@@ -236,6 +237,84 @@ Theorem C01_shortcut_needs_bbox_refuted :
 Proof. exact shortcut_needs_bbox_refuted. Qed.
 Print Assumptions C01_shortcut_needs_bbox_refuted.
 
+(* outside the bounding box of closed rings the winding number is 0 *)
+Theorem C01_wn_outside_bbox : forall rings P a b c d,
+  (forall r, In r rings -> ring_closed r) ->
+  (forall q, In q (concat rings) -> (a <= fst q <= c /\ b <= snd q <= d)) ->
+  (fst P < IZR a \/ IZR c < fst P \/ snd P < IZR b \/ IZR d < snd P)%R ->
+  wn rings P = 0.
+Proof. exact wn_outside_bbox. Qed.
+Print Assumptions C01_wn_outside_bbox.
+
+(* the winding number is the same at all points of a box that no ring boundary
+   enters (closed rings; no simplicity, orientation or nesting assumption) *)
+Theorem C01_wn_const_on_boundary_free_box : forall rings X0 Y0 X1 Y1,
+  (forall r, In r rings -> ring_closed r) ->
+  (forall Q, in_box X0 Y0 X1 Y1 Q -> ~ boundary rings Q) ->
+  forall P Q, in_box X0 Y0 X1 Y1 P -> in_box X0 Y0 X1 Y1 Q -> wn rings P = wn rings Q.
+Proof. exact wn_const_on_boundary_free_box. Qed.
+Print Assumptions C01_wn_const_on_boundary_free_box.
+
+(* the polygon kernel, both directions: closed rings, every ring inside the
+   shell's bounding box, a box of positive width and height *)
+Theorem C01_polygon_kernel : forall x0 y0 x1 y1 vals offsets1 start0 stop0,
+  x0 < x1 -> y0 < y1 -> wf_ring_offsets vals offsets1 start0 stop0 ->
+  holes_in_shell_bbox (rings_at vals offsets1 start0 stop0) ->
+  (forall r, In r (rings_at vals offsets1 start0 stop0) -> ring_closed r) ->
+  (perform_polygon x0 y0 x1 y1 vals offsets1 start0 stop0 = true <->
+   exists P, in_zbox x0 y0 x1 y1 P /\ poly_region (rings_at vals offsets1 start0 stop0) P).
+Proof. exact perform_polygon_correct. Qed.
+Print Assumptions C01_polygon_kernel.
+
+Theorem C01_multipolygon_kernel : forall x0 y0 x1 y1 vals offsets1 offsets2 start0 stop0,
+  x0 < x1 -> y0 < y1 ->
+  (forall s e, In (s, e) (opairs (slice start0 (stop0 + 1) offsets1)) ->
+     wf_ring_offsets vals offsets2 s e /\ holes_in_shell_bbox (rings_at vals offsets2 s e) /\
+     forall r, In r (rings_at vals offsets2 s e) -> ring_closed r) ->
+  (perform_multipolygon x0 y0 x1 y1 vals offsets1 offsets2 start0 stop0 = true <->
+   exists P, in_zbox x0 y0 x1 y1 P /\
+             multipoly_region (parts_at vals offsets1 offsets2 start0 stop0) P).
+Proof. exact perform_multipolygon_correct. Qed.
+Print Assumptions C01_multipolygon_kernel.
+
+(* PolygonArray / MultiPolygonArray.intersects_bounds, box corners in any order *)
+Theorem C01_polygon : forall a bx0 by0 bx1 by1 r,
+  polygon_array a (bx0, by0, bx1, by1) None = Some r ->
+  exists vals o0 o1, finite_vals (buffer_values a) = Some vals /\
+  buffer_offsets a = [o0; o1] /\ length r = la_len a /\
+  forall i, (i < la_len a)%nat -> bx0 <> bx1 -> by0 <> by1 ->
+    let rings := rings_at vals o1 (getn o0 i) (getn o0 (S i)) in
+    wf_ring_offsets vals o1 (getn o0 i) (getn o0 (S i)) ->
+    holes_in_shell_bbox rings -> (forall ring, In ring rings -> ring_closed ring) ->
+    (nth i r false = true <->
+     exists P, in_zbox (Z.min bx0 bx1) (Z.min by0 by1) (Z.max bx0 bx1) (Z.max by0 by1) P /\
+               poly_region rings P).
+Proof. exact polygon_array_correct. Qed.
+Print Assumptions C01_polygon.
+
+Theorem C01_multipolygon : forall a bx0 by0 bx1 by1 r,
+  multipolygon_array a (bx0, by0, bx1, by1) None = Some r ->
+  exists vals o0 o1 o2, finite_vals (buffer_values a) = Some vals /\
+  buffer_offsets a = [o0; o1; o2] /\ length r = la_len a /\
+  forall i, (i < la_len a)%nat -> bx0 <> bx1 -> by0 <> by1 ->
+    (forall s e, In (s, e) (opairs (slice (getn o0 i) (getn o0 (S i) + 1) o1)) ->
+       wf_ring_offsets vals o2 s e /\ holes_in_shell_bbox (rings_at vals o2 s e) /\
+       forall ring, In ring (rings_at vals o2 s e) -> ring_closed ring) ->
+    (nth i r false = true <->
+     exists P, in_zbox (Z.min bx0 bx1) (Z.min by0 by1) (Z.max bx0 bx1) (Z.max by0 by1) P /\
+               multipoly_region (parts_at vals o1 o2 (getn o0 i) (getn o0 (S i))) P).
+Proof. exact multipolygon_array_correct. Qed.
+Print Assumptions C01_multipolygon.
+
+Theorem C01_polygon_array_empty : forall a bx0 by0 bx1 by1 r vals o0 o1 i,
+  polygon_array a (bx0, by0, bx1, by1) None = Some r ->
+  finite_vals (buffer_values a) = Some vals -> buffer_offsets a = [o0; o1] ->
+  (i < la_len a)%nat ->
+  zpairs (slice (getn o1 (getn o0 i)) (getn o1 (getn o0 (S i))) vals) = [] ->
+  nth i r false = false.
+Proof. exact polygon_array_empty. Qed.
+Print Assumptions C01_polygon_array_empty.
+
 Theorem C01_polygon_empty : forall x0 y0 x1 y1 vals offsets1 start0 stop0,
   zpairs (slice (getn offsets1 start0) (getn offsets1 stop0) vals) = [] ->
   perform_polygon x0 y0 x1 y1 vals offsets1 start0 stop0 = false.
@@ -257,6 +336,19 @@ Example ex_polygons_run :
   polygon_array ex_polygons (-1, -1, 9, 9) None = Some [true; false; false] /\
   polygon_array ex_polygons (9, 9, 10, 10) (Some [0; 0; 2]%nat) = Some [false; false; false].
 Proof. vm_compute. repeat split. Qed.
+
+Example ex_polygons_hyps :
+  let rings := rings_at [0; 0; 8; 0; 8; 8; 0; 8; 0; 0; 2; 2; 2; 6; 6; 6; 6; 2; 2; 2] [0; 10; 20]%nat 0 2 in
+  rings = [[(0, 0); (8, 0); (8, 8); (0, 8); (0, 0)]; [(2, 2); (2, 6); (6, 6); (6, 2); (2, 2)]] /\
+  (forall ring, In ring rings -> ring_closed ring) /\ holes_in_shell_bbox rings.
+Proof.
+  vm_compute rings_at. split; [reflexivity|]. split.
+  - intros ring [<-|[<-|[]]]; reflexivity.
+  - simpl. intros v Hv.
+    exists (0, 0), (8, 0), (0, 0), (8, 8). simpl.
+    repeat (split; [tauto|]).
+    repeat (destruct Hv as [<-|Hv]; [simpl; lia|]). destruct Hv.
+Qed.
 
 Example ex_polygons_wf :
   wf_ring_offsets [0; 0; 8; 0; 8; 8; 0; 8; 0; 0; 2; 2; 2; 6; 6; 6; 6; 2; 2; 2] [0; 10; 20]%nat 0 2.
